@@ -40,6 +40,11 @@ func (r *Reader) Read(p []byte) (n int, err error) {
 	}
 	n, err = r.r.Read(p)
 	if err != nil {
+		if n > 0 {
+			if werr := r.limiter.WaitN(context.Background(), n); werr != nil {
+				err = werr
+			}
+		}
 		return
 	}
 
